@@ -2,9 +2,37 @@
 Copy propagation.
 """
 
-from ..analysis import AssignDef, DefineUse, SyntaxCheck
+from ..analysis import AssignDef, DefineUse, DefineUseAnalysis, SyntaxCheck
 from ..ast.fpyast import *
+from ..ast.visitor import DefaultVisitor
 from .subst_var import SubstVar
+
+
+class _ReachingAtUses(DefaultVisitor):
+    """Maps each variable use to the definitions reaching the point where it is evaluated."""
+
+    def __init__(self, def_use: DefineUseAnalysis):
+        self.def_use = def_use
+        self.at: dict[Var, dict] = {}
+
+    def _visit_var(self, e: Var, ctx):
+        self.at[e] = ctx
+
+    def _visit_list_comp(self, e: ListComp, ctx):
+        ctx = dict(ctx)
+        for target, iterable in zip(e.targets, e.iterables):
+            self._visit_expr(iterable, ctx)
+            for name in target.names():
+                ctx[name] = self.def_use.find_def_from_site(name, e)
+        self._visit_expr(e.elt, ctx)
+
+    def _visit_while(self, stmt: WhileStmt, ctx):
+        # the condition is re-evaluated against the loop-header merges
+        self._visit_expr(stmt.cond, self.def_use.in_defs[stmt.body])
+        self._visit_block(stmt.body, ctx)
+
+    def _visit_statement(self, stmt: Stmt, ctx):
+        return super()._visit_statement(stmt, self.def_use.reach[stmt])
 
 
 class CopyPropagate:
@@ -31,6 +59,8 @@ class CopyPropagate:
 
         prop: dict[AssignDef, Var] = {}
         def_use = DefineUse.analyze(func)
+        reaching = _ReachingAtUses(def_use)
+        reaching._visit_function(func, None)
         for d in def_use.defs:
             if names is not None and d.name not in names:
                 continue
@@ -43,11 +73,16 @@ class CopyPropagate:
             ):
                 # direct assignment: x = y
                 # substitute all occurences of this definition of `x` with `y`
-                if any(isinstance(u, Var) for u in def_use.uses[d]):
-                    # only propagate if there is a use the substitution can
-                    # rewrite: `x[i] = e` uses `x` but keeps its name, and
-                    # reporting a change for it keeps `simplify` from settling
-                    prop[d] = d.site.expr
+                src = d.site.expr
+                src_def = def_use.find_def_from_use(src)
+                uses = [u for u in def_use.uses[d] if isinstance(u, Var)]
+                if (
+                    uses                           # something to rewrite (else `changed` never settles)
+                    and src.name != d.name         # `x = x` rewrites nothing
+                    and all(reaching.at.get(u, {}).get(src.name) == src_def for u in uses)
+                ):
+                    # `y` still names the copied definition at every use of `x`
+                    prop[d] = src
 
         if not prop:
             return func, False
